@@ -70,17 +70,14 @@ example : ∃ σ, Reachable σ ∧
   · refine ⟨by decide, by decide, Or.inr ⟨Or.inl rfl, rfl⟩, ?_, by decide, fun _ => rfl⟩
     intro p hp; cases hp
 
-/-- The rows excepted from the theorems above are exactly the rows of the table that do not follow the
-    discipline today: no disciplined row hides behind `knownRaces`, and nothing else is undisciplined.
-    (With fix-F14b applied the F14b rows become disciplined: then this statement — not the theorems
-    above — has to be updated by deleting them from `knownRaces`.) -/
-theorem c08_exceptions_are_the_undisciplined_rows :
-    ∀ a ∈ accesses, (isKnownRace a = true → True) ∧ (isKnownRace a = false → rowOK phaseMap a = true) := by
-  intro a ha
-  refine ⟨fun _ => trivial, fun hk => ?_⟩
-  have := List.all_eq_true.mp c08_rows_ok a
-    (List.mem_filter.mpr ⟨ha, by simp [hk]⟩)
-  exact this
+/-- Nothing but the named exceptions is left out: every row of the FULL regenerated table that is not
+    one of `knownRaces` follows the discipline. (A row of `knownRaces` that a repair has made disciplined —
+    fix-F14a / fix-F14b — simply stops being needed; `Hls.Race.undisciplinedRows accesses` lists what is
+    still undisciplined on the tree under test.) -/
+theorem c08_only_known_rows_excepted :
+    ∀ a ∈ accesses, isKnownRace a = false → rowOK phaseMap a = true := by
+  intro a ha hk
+  exact List.all_eq_true.mp c08_rows_ok a (List.mem_filter.mpr ⟨ha, by simp [hk]⟩)
 
 /-- Publication happens inside the writer's critical section: every call of
     `muxerServer.registerPath` / `unregisterPath` made on behalf of `Write*` holds the muxer mutex M. -/
